@@ -22,6 +22,7 @@ CONSTANTS AxisLayouts,   \* set of <<bins per axis>> (sequences of bin sequences
           MergeArgs,     \* set of <<amount, axis>> (axis 0 = all)
           ScaleArgs,     \* set of <<p, q>> factors
           MinFreqs,      \* thresholds for merge_bins(min_frequency=...)
+          CellArgs,      \* set of <<ix, lows, highs, num>> candidates for h[i, j, ...]
           RetCands,      \* candidate return values of fill / find_bin (index tuples and NoneRet)
           IndexArgs      \* set of index tuples: per axis <<"i", k>> or <<"s", start, stop>>
 
@@ -308,6 +309,16 @@ MergeMinFreq(t, ax, inplace) ==
           ELSE d = Null /\ d' = CoarsenedAxis(h, ax, q) /\ UNCHANGED h
     /\ UNCHANGED ghost
 
+(* h[i, j, ...] with one integer per axis (negative allowed): returns the cell's edges and content, creates nothing. *)
+(* `lows`, `highs` are the expected left / right edges per axis, `num` the expected content numerator.             *)
+GetCell(ix, lows, highs, num) ==
+    /\ Live /\ On("GetCell") /\ h # Null /\ Len(ix) = Dim(h)
+    /\ \A a \in 1..Dim(h) : NormIx(Len(h.bins[a]), ix[a]) \in 0..(Len(h.bins[a]) - 1)
+    /\ lows = [a \in 1..Dim(h) |-> Left(h.bins[a][NormIx(Len(h.bins[a]), ix[a]) + 1])]
+    /\ highs = [a \in 1..Dim(h) |-> Right(h.bins[a][NormIx(Len(h.bins[a]), ix[a]) + 1])]
+    /\ num = h.freq[[a \in 1..Dim(h) |-> NormIx(Len(h.bins[a]), ix[a]) + 1]]
+    /\ UNCHANGED <<h, d, ghost>>
+
 (* del d *)
 DropD == /\ Live /\ On("DropD") /\ d # Null /\ d' = Null /\ UNCHANGED <<h, ghost>>
 
@@ -325,6 +336,7 @@ Next ==
     \/ \E ax \in 1..3 : Accumulate(ax)
     \/ \E m \in MergeArgs, ip \in BOOLEAN : Merge(m[1], m[2], ip) \/ MergeRefused(m[1], m[2], ip)
     \/ \E ix \in IndexArgs : GetItem(ix)
+    \/ \E c \in CellArgs : GetCell(c[1], c[2], c[3], c[4])
     \/ DropD
     \/ \E LL \in AxisLayouts, ri \in RInclChoices, m \in {0, 3}, keep \in BOOLEAN : FromArraysM(LL, ri, m, keep)
     \/ \E c \in ScaleArgs, how \in {"mul", "rmul", "div"}, ip \in BOOLEAN : ScaleND(c[1], c[2], how, ip)
